@@ -90,6 +90,7 @@ class Executor:
         self.dict_terms = {}              # id -> Ref term of every dict object met (bounded refutation pool)
         self.ref_args = []                # reference-typed arguments of the function under verification
         self.deadline = None
+        self._dv_cache = {}
 
     # ------------------------------------------------------------------ utilities
     def fnid(self, name):
@@ -784,6 +785,12 @@ class Executor:
         out = []
         for m in modifies:
             m = m.strip()
+            if m.endswith('[*][]'):
+                v = self.specs.eval_value(self, m[:-5], st, fr)
+                if v.kind != 'ref' or v.ty.cls != 'dict':
+                    raise Unsupported(f'modifies {m}: not a dict of lists')
+                out.append(('dictvals', v, st))
+                continue
             if m.endswith('[]'):
                 v = self.specs.eval_value(self, m[:-2], st, fr)
                 if v.kind != 'ref' or v.ty.cls not in ('list', 'dict'):
@@ -840,9 +847,20 @@ class Executor:
                         arr = h.maps[key]
                         h.set(key, z3.Store(arr, obj, fresh('hv_d', arr.sort().range())))
                 h.set_ddom(obj, fresh('hv_dom', z3.ArraySort(Ref, B)))
+            elif kind == 'dictvals':
+                isval = self.dict_value_pred(st, obj, f)
+                r = z3.Const('dv_r', Ref)
+                for key in list(h.maps):
+                    if key == 'Llen' or key.startswith('L:'):
+                        arr = h.maps[key]
+                        na = fresh('hv_dv', arr.sort())
+                        st.assume(z3.ForAll([r], z3.Implies(z3.Not(isval(r)), na[r] == arr[r]), patterns=[na[r]]))
+                        h.set(key, na)
+                st.assume(z3.ForAll([r], h.llen(r) >= 0, patterns=[h.llen(r)]))
             elif kind == 'trace':
                 # every component of the ghost trace (also those not touched so far) gets a fresh value
-                comps = {'$tr.kind': I, '$tr.fn': Clo, '$tr.recv': Ref, '$tr.resb': B, '$tr.resx': R, '$tr.resn': B}
+                comps = {'$tr.kind': I, '$tr.fn': Clo, '$tr.recv': Ref, '$tr.resb': B, '$tr.resx': R, '$tr.resn': B,
+                         '$tr.resr': Ref}
                 for i in range(6):
                     comps[f'$tr.r{i}'] = Ref
                     comps[f'$tr.x{i}'] = R
@@ -854,6 +872,20 @@ class Executor:
                     h.set(key, fresh('hv_tr', z3.ArraySort(I, so)))
                 h.set('$trlen', fresh('hv_trlen', I))
                 st.assume(h.maps['$trlen'] >= 0)
+
+    def dict_value_pred(self, st, d, at_state):
+        """Predicate 'r is a value of dict d' (values are references) in the heap of at_state, as an
+        uninterpreted function with a witness: isval(r) <-> dom[wit(r)] and val[wit(r)] == r."""
+        hh = at_state.heap
+        dom = hh.ddom(d.t)
+        vals = hh.darrs(d.t, d.ty.val)[0]
+        n = next(sym._counter)
+        isval = z3.Function(f'isval!{n}', Ref, B)
+        wit = z3.Function(f'valwit!{n}', Ref, Ref)
+        r, k = z3.Const('iv_r', Ref), z3.Const('iv_k', Ref)
+        st.assume(z3.ForAll([r], isval(r) == z3.And(dom[wit(r)], vals[wit(r)] == r), patterns=[isval(r)]),
+                  z3.ForAll([k], z3.Implies(dom[k], isval(vals[k])), patterns=[vals[k]]))
+        return isval
 
     def havoc_all(self, st, protect):
         """Everything mutable gets a fresh value; new heap epoch for maps not touched so far."""
@@ -936,7 +968,14 @@ class Executor:
                 continue      # owned containers are covered by the rely's protect list
             elif key == 'Llen' or key.startswith('L:'):
                 allowed = [o for k, o, _ in locs if k == 'list']
-                bad.append(z3.And(was_alive, *[r != o for o in allowed], a[r] != b[r]))
+                fam = []
+                for k, o, st_at in locs:
+                    if k == 'dictvals':
+                        ck = ('$dv', o.t.get_id(), id(st_at))
+                        if ck not in self._dv_cache:
+                            self._dv_cache[ck] = self.dict_value_pred(post, o, st_at)
+                        fam.append(z3.Not(self._dv_cache[ck](r)))
+                bad.append(z3.And(was_alive, *[r != o for o in allowed], *fam, a[r] != b[r]))
             elif key in ('Ddom', 'Dlen', 'Dkeys') or key.startswith('D:'):
                 allowed = [o for k, o, _ in locs if k == 'dict']
                 bad.append(z3.And(was_alive, *[r != o for o in allowed], a[r] != b[r]))
@@ -1659,6 +1698,8 @@ class Executor:
     def list_append(self, l, v, st):
         h = st.heap
         n = h.llen(l.t)
+        if sym.BOUND is not None:
+            sym.SIDE.append(n <= sym.BOUND)
         arrs = [z3.Store(a, n, t) for a, t in zip(h.larrs(l.t, l.ty.elem), to_leaves(v, l.ty.elem))]
         h.set_larrs(l.t, l.ty.elem, arrs)
         h.set_llen(l.t, n + 1)
@@ -1682,6 +1723,8 @@ class Executor:
         """pop(k) -> [(V|Exc, state)]; k is V int or None (= last)"""
         h = st.heap
         n = h.llen(l.t)
+        if sym.BOUND is not None:
+            sym.SIDE.append(n <= sym.BOUND)
         idx = (n - 1) if k is None else norm_index(k.t, n)
         ok = z3.And(n > 0, idx >= 0, idx < n)
         out = []
